@@ -4,6 +4,16 @@ from .common import Sym
 
 ATOMS = ['a', 'b', 'c']
 VARS = ['X', 'Y', 'Z', 'W']
+# legal variable names that look like names the compiler makes up itself (anonymous-variable
+# numbering, argument names, prefixes): a renaming of clause variables must not change answers
+ODD_VARS = ['_1', '_2', '_3', '_4', '_X', 'X1', 'Arg1', '__', '_x1', 'V_X', 'Xarg2', 'Self', 'Yp']
+
+
+def clause_vars(rnd, n):
+    if rnd.random() < 0.2:
+        pool = ODD_VARS[:4] if rnd.random() < 0.5 else ODD_VARS
+        return rnd.sample(pool, n)
+    return VARS[:n]
 
 
 def mterm_ground(rnd, depth=1):
@@ -101,8 +111,8 @@ class ProgGen:
                 continue
             for _ in range(n):
                 if rnd.random() < self.k.nonground_facts:
-                    vs = ['X', 'Y']
-                    args = [sterm(rnd, vs, 1, 0.6) for _ in range(arity)]
+                    vs = clause_vars(rnd, 2)
+                    args = [sterm(rnd, vs, 1, 0.6, anon=0.25 if vs[0] not in VARS else 0.05) for _ in range(arity)]
                 else:
                     args = [sterm(rnd, [], 1, 0.0, anon=0.0) for _ in range(arity)]
                 self.clauses.append((name, args, 'tru'))
@@ -213,9 +223,33 @@ class ProgGen:
         saved = self.k.cut
         self.k.cut = False
         try:
+            if self.k.ctrl and size >= 2 and vars_ and self.rnd.random() < 0.3:
+                return self.filter_cond(vars_)
             return self.body(vars_, size)
         finally:
             self.k.cut = saved
+
+    def filter_cond(self, vars_):
+        """generate-and-test inside a condition: `g(X), \\+ h(X)` and friends - the nested construct is
+        entered once per candidate, commits for some candidates and not for others"""
+        rnd = self.rnd
+        v = ('V', rnd.choice(vars_))
+
+        def call1():
+            cands = [p for p in self.preds if p[1] >= 1]
+            facts = [p for p in cands if p[0].startswith('f') and self.nsol.get(p, 0) >= 1 and p[1] == 1]
+            if facts and rnd.random() < 0.7:
+                cands = facts
+            if not cands:
+                return ('call', '=', [v, ('A', rnd.choice(ATOMS))])
+            name, arity = rnd.choice(cands)
+            args = [sterm(rnd, vars_, 0, 0.6) for _ in range(arity)]
+            args[rnd.randrange(arity)] = v
+            return ('call', name, args)
+        g, h = call1(), call1()
+        test = rnd.choice([('neg', h), ('disj', ('ite', h, 'fail'), 'tru'), ('disj', ('ite', h, 'tru'), 'fail'),
+                           ('ite', h, 'tru'), ('neg', ('neg', h)), ('disj', h, ('call', '=', [v, ('A', 'c')]))])
+        return ('conj', g, test)
 
     # -- rules ---------------------------------------------------------------
     def gen_rules(self):
@@ -224,8 +258,9 @@ class ProgGen:
             name = 'r%d' % i
             arity = rnd.randint(0, self.k.max_arity + 1)
             for _ in range(rnd.choice([1, 1, 2, 2, 3])):
-                vs = VARS[:rnd.randint(1, 4)]
-                head = [sterm(rnd, vs, 1, 0.7) for _ in range(arity)]
+                vs = clause_vars(rnd, rnd.randint(1, 4))
+                odd = vs[0] not in VARS
+                head = [sterm(rnd, vs, 1, 0.7, anon=0.25 if odd else 0.05) for _ in range(arity)]
                 body = self.body(vs, rnd.randint(1, self.k.max_body))
                 self.clauses.append((name, head, body, True))
             self.preds.append((name, arity))
